@@ -34,10 +34,13 @@ META = {
                   'behaviour of every non-target owner unchanged, after any admissible program), class_description_stable, '
                   'later_instances_fresh; for the module-level properties (group, visibility, custom Property(...), bare values on any '
                   'number of levels): isolated_mprops, class_mprops_stable, describeM_instantiate, later_instances_mprops (all for every '
-                  'admissible run).  PARTIAL: order_independent_partial - the value a class is laid out from (ClassRec.pure: accessibles '
-                  'and propertyDict) equals pureOf(env), a function of the class bodies along its MRO only, for every program whose '
-                  'definition order is consistent with inheritance; that describeH/describeM show exactly this value (faithfulness of '
-                  'the heap layout) is not proved (order_independent_statement).  Tied to the code by a correspondence run (every dump, '
+                  'admissible run); class_never_changes / inst_never_changes_mprops (once defined / created, for every admissible '
+                  'continuation); order_independent (FULL: any two programs with the same class bodies, each in an order consistent with '
+                  'inheritance, show the same heap description for every common class - it is viewsOf(env), a function of the class '
+                  'bodies along the MRO), order_independent_mprops, class_mprops_faithful, inst_description_function / '
+                  'inst_mprops_function (the description of an instance is a function of viewsOf/pureOf of its class and its '
+                  'configuration).  '
+                  'Tied to the code by a correspondence run (every dump, '
                   'propertyDict, property values, exportProperties and the id()-sharing partition incl. Property objects and member '
                   'datatypes after every operation of generated programs) and by Lean monitors judging every implementation trace '
                   '(isolation incl. write_<p>/command-call behaviour and module properties, order independence, later instances, writes '
@@ -47,8 +50,8 @@ META = {
                   '(monitored on every run); whether an operation fails is taken from the implementation (the model skips failed '
                   'operations, the judge demands they change nothing), in particular whether a bare value is accepted by the datatype '
                   'of a module property; property values travel in exported form (generated values are fixed points of '
-                  'export(validate(v))); faithfulness of the heap layout w.r.t. the value-level result is tested by the correspondence '
-                  'run, not proved; write/call outcomes are judged, not predicted by the model.',
+                  'export(validate(v))); the model itself (that frappy lays objects out as FrappyModel/Klass/Instance.lean says) is tested by '
+                  'the correspondence run; write/call outcomes are judged, not predicted by the model.',
     'trusted': [
         "Python's C3 linearisation (the real __mro__ of every generated class is passed to the model as data)",
         'validation behaviour of a datatype object is a function of its exported datainfo (checked by the monitor valFunctionalB on every run)',
